@@ -26,6 +26,10 @@ def run(cx, chk):
     for w in ws:
         tag = w.tag
         if w.ok and w.leftrec:
+            # a growing wrapper is C07's subject, except for what it does to the cache beyond its own entry (eviction of memoized results)
+            for (rid, detail, msg, site) in [v for v in w.viol if v[0] == "own"]:
+                chk.violation("C06.keep", ("%s %s" % (tag, detail)).strip(), msg + " - memoized results of other rules at this position may be evicted and their bodies "
+                              "evaluated again", site)
             continue
         if w.ok:
             n_memo += 1
@@ -55,7 +59,7 @@ def run(cx, chk):
                         continue
                     fld = memo.mentions_cache_field(body.expr_rv(st["rv"]))
                     own = owners.get(fld) if fld else None
-                    if fld and not (own is not None and (p == own or p.startswith(own + "::"))) and "ParseCache" not in p:
+                    if fld and not (own is not None and (p == own or p.startswith(own + "::"))) and not ("ParseCache" in p and any(tr in p for tr in ("Default>::default", "Clone>::clone", "fmt::Debug>::fmt", "PartialEq>::eq"))):
                         chk.violation("C06.keep", "%s field=%s fn=%s" % (inst.name, fld, mir.short(p)),
                                       "cache field %s accessed outside its wrapper" % fld, cx.site(body, i))
         chk.ok("C06.keep", inst.name, {"instance": inst.name, "fields": fields})
